@@ -101,14 +101,25 @@ SQ = [(0, 0, 0), (1, 0, 0), (1, 1, 0), (0, 1, 0)]
 
 
 def run_corner_index(sx, api):
-    c = sx.integer("corner", -3, 10)
+    c = sx.integer("corner", -5, 10)
     ci = int(c)
     box = cb.Box([0, 0, 0], [1, 1, 1])
+    # a precondition is a property of the call, not of the state the entity happens to be in: fresh entities and ones that
+    # already carry projections / curved edges / chops
+    prepared = sx.flag("prepared")
+    face = cb.Face(SQ)
+    if prepared:
+        face.project("earlier", edges=True, points=True)
+        box.project_side("top", "earlier", edges=True, points=True)
+        box.project_side("front", "earlier", edges=True, points=True)
+        if api != "Block.chop":
+            for k in range(4):
+                box.add_side_edge(k, Arc([-0.2 + k % 2, -0.2 + k // 2, 0.5]))
+        for ax in range(3):
+            box.chop(ax, count=2)
     if api == "Face.add_edge":
-        face = cb.Face(SQ)
         call, lo, hi = (lambda: face.add_edge(ci, Arc([0.5, -0.2, 0]))), 0, 3
     elif api == "Face.project_edge":
-        face = cb.Face(SQ)
         call, lo, hi = (lambda: face.project_edge(ci, "geo")), 0, 3
     elif api == "Operation.add_side_edge":
         call, lo, hi = (lambda: box.add_side_edge(ci, Arc([-0.2, 0, 0.5]))), 0, 3
@@ -124,7 +135,8 @@ def run_corner_index(sx, api):
     else:
         raise KeyError(api)
     bad = not _in(ci, lo, hi)
-    return judge(sx, f"{api}({ci})", f"C20:index:{api}", call, bad, not bad)
+    return judge(sx, f"{api}({ci}){' on an entity that already carries projections, edges and chops' if prepared else ''}",
+                 f"C20:index:{api}", call, bad, not bad)
 
 
 EDGES = {frozenset(p) for p in [(0, 1), (1, 2), (2, 3), (3, 0), (4, 5), (5, 6), (6, 7), (7, 4), (0, 4), (1, 5), (2, 6), (3, 7)]}
